@@ -227,11 +227,11 @@ Definition perform_include (cur : option name) (es : list nexpr) (ign : bool) (s
 
 (* Macro::call + eval_macro: own context (root value + closure frame holding the argument),
    own output; blocks and loaded templates are kept and restored (BlockState::Isolate) *)
-Definition call_macro (body : list item) (arg : Z) (s : ist) : outcome ist :=
+Definition call_macro (body : list item) (clo : frame) (arg : Z) (s : ist) : outcome ist :=
   let d := outer s + Z.of_nat (length (frames (vars s))) in
   if (depth_ok lim 0 2 && depth_ok lim (d + 4) 2)%bool then
     let s1 := mkIst (blocks s) (loaded s) [Some []]
-                (mkVenv (root (vars s)) [[(v_param, str_of arg)]; []]) (d + 4) in
+                (mkVenv (root (vars s)) [[(v_param, str_of arg)]; clo]) (d + 4) in
     bind (call (TBody None body) s1) (fun s2 =>
     match outs s2 with
     | [Some cap] => emit cap s
@@ -241,7 +241,7 @@ Definition call_macro (body : list item) (arg : Z) (s : ist) : outcome ist :=
 
 Definition call_value (o : option value) (arg : Z) (s : ist) : outcome ist :=
   match o with
-  | Some (VMacro body) => call_macro body arg s
+  | Some (VMacro body clo) => call_macro body clo arg s
   | _ => Err E_InvalidOperation                         (* value is not callable *)
   end.
 
@@ -298,7 +298,8 @@ Definition istep (lvl0 : bool) (cur : option name) (it : item) (par : option (li
       if lvl0 then (if truthy (lookup x (vars s)) then load_blocks e par s else Ok (par, s))
       else Err E_Unmodelled
   | IInclude es ign => keep par (perform_include cur es ign s)
-  | IMacro f body => keep par (set_var f (VMacro body) s)
+  | IMacro f body =>                                  (* Enclose.. BuildMacro StoreLocal *)
+      keep par (set_var f (VMacro body (closure_of (enclosed body) (vars s))) s)
   | ICall f arg =>
       keep par (match lookup f (vars s) with
                 | None => Err E_UnknownFunction
@@ -308,10 +309,11 @@ Definition istep (lvl0 : bool) (cur : option name) (it : item) (par : option (li
       (* BeginCapture(Capture) PushWith <e> Include(false) EndCapture ExportLocals PopFrame StoreLocal *)
       keep par (bind (push_frame lim [] (begin_capture (Some []) s)) (fun s1 =>
                 bind (perform_include cur [e] false s1) (fun s2 =>
-                bind (end_capture s2) (fun '(_, s3) =>
+                bind (end_capture s2) (fun cs =>
+                let s3 := snd cs in
                 bind (top_frame s3) (fun exports =>
                 bind (pop_frame s3) (fun s4 =>
-                set_var m (VModule exports) s4))))))
+                set_var m (VModule exports (match fst cs with Some t => t | None => [] end)) s4))))))
   | IFrom e xs =>
       (* BeginCapture(Discard) PushWith <e> Include(false) <names> PopFrame StoreLocal.. EndCapture *)
       keep par (bind (push_frame lim [] (begin_capture None s)) (fun s1 =>
@@ -323,13 +325,13 @@ Definition istep (lvl0 : bool) (cur : option name) (it : item) (par : option (li
   | IPrintAttr m x =>
       keep par (match lookup m (vars s) with
                 | None | Some VUndef => Err E_UndefinedError
-                | Some (VModule kvs) => bind (printed (assoc x kvs)) (fun t => emit t s)
+                | Some (VModule kvs _) => bind (printed (assoc x kvs)) (fun t => emit t s)
                 | Some (VStr _) => Ok s
-                | Some (VMacro _) => Err E_Unmodelled
+                | Some (VMacro _ _) => Err E_Unmodelled
                 end)
   | ICallAttr m f arg =>
       keep par (match lookup m (vars s) with
-                | Some (VModule kvs) =>
+                | Some (VModule kvs _) =>
                     match assoc f kvs with
                     | None => Err E_UnknownMethod
                     | o => call_value o arg s
@@ -339,9 +341,14 @@ Definition istep (lvl0 : bool) (cur : option name) (it : item) (par : option (li
   | IKeys m =>
       keep par (match lookup m (vars s) with
                 | None | Some VUndef => bind (push_frame lim [] s) (fun _ => Ok s)
-                | Some (VModule kvs) => bind (push_frame lim [] s) (fun _ => emit (emit_keys kvs) s)
+                | Some (VModule kvs _) => bind (push_frame lim [] s) (fun _ => emit (emit_keys kvs) s)
                 | Some _ => Err E_Unmodelled
                 end)
+  | ISetBlock x body =>
+      (* BeginCapture(Capture) <body> EndCapture StoreLocal: the body runs in the same stream *)
+      keep par (bind (call (TBody cur body) (begin_capture (Some []) s)) (fun s2 =>
+                bind (end_capture s2) (fun cs =>
+                set_var x (match fst cs with Some t => VStr t | None => VUndef end) (snd cs))))
   end.
 
 Fixpoint ilist (lvl0 : bool) (cur : option name) (its : list item) (par : option (list item)) (s : ist)
